@@ -25,7 +25,7 @@ def _java(args, env=None, timeout=900, heap="3g", cwd=None, jvm=()):
     e = dict(os.environ)
     if env:
         e.update({k: str(v) for k, v in env.items()})
-    cmd = ["java", "-XX:+UseParallelGC", f"-Xmx{heap}", *jvm, "-cp", CP, *args]
+    cmd = ["java", "-XX:+UseParallelGC", "-Xss64m", f"-Xmx{heap}", *jvm, "-cp", CP, *args]
     t0 = time.time()
     try:
         p = subprocess.run(
